@@ -10,6 +10,8 @@ pub fn run(ctx: &Ctx) -> Outcome {
     run_and_report(ctx, &rtx_after_recovery_rto(ctx.tier, ctx.tier.pick(7, 9)), &mut out);
     run_and_report(ctx, &mtu(ctx.tier, 700, Some(600), None, 0, ctx.tier.pick(6, 8)), &mut out);
     run_and_report(ctx, &mtu(ctx.tier, 700, None, None, 0, ctx.tier.pick(6, 8)), &mut out);
+    run_and_report(ctx, &mtu_probe_sacked(ctx.tier, 0, ctx.tier.pick(6, 8)), &mut out);
+    run_and_report(ctx, &mtu_probe_sacked(ctx.tier, 1, ctx.tier.pick(6, 8)), &mut out);
     out.rule = "C06: explicit-state BFS over loss / ACK / SACK / stale-ACK histories x timer expiries; monitors judge timing (via the observed RTO and timers), fast retransmit, the retry cap, never-retransmit-acknowledged and content stability from the wire".into();
     out.assumptions.push("the RTO value in force is read through the hook observer (its correctness is C16's job); duplicate ACKs are counted per RFC 5681 for a peer that never used SACK and per SACK-bearing ACK otherwise".into());
     out
